@@ -95,6 +95,13 @@ pub enum Cop {
     Offset { offset: Off },
     Direct { who: String, t: T },
     NewCreator { who: String, to: String },
+    /// migrate the minter to its own code id (vending and open-edition families); `stored`
+    /// rewrites cw2 first
+    Migrate {
+        who: String,
+        #[serde(default)]
+        stored: Option<(String, String)>,
+    },
 }
 
 #[derive(Clone, Debug, Serialize, Deserialize)]
@@ -503,6 +510,34 @@ pub fn run_case(c: &Case) -> CaseResult {
                     }
                 }
             }
+            Cop::Migrate { who, stored } => match &mut w {
+                W::Sale(sw) => {
+                    let out = sw.run(&Op::Migrate { who: who.clone(), stored: stored.clone() });
+                    if let Some(s) = out.coq {
+                        sale_steps.push(s);
+                    }
+                    count(&mut res, "migrate", out.ok);
+                }
+                W::Fam(fw) => {
+                    if matches!(fam, Fam::OpenEdition(_)) {
+                        let m = fw.minter.clone();
+                        let own = crate::w_migrate::get_cw2(&fw.app, &m);
+                        if let Some((n, v)) = stored {
+                            let n = if n == "@own" { own.0.clone() } else { n.clone() };
+                            let v = if v == "@own" { own.1.clone() } else { v.clone() };
+                            crate::w_migrate::set_cw2(&mut fw.app, &m, &n, &v);
+                        }
+                        let f = fw.factory.clone();
+                        let code_id = fw.app.wrap().query_wasm_smart::<Value>(f, &json!({"params": {}})).ok().and_then(|p| p["params"]["code_id"].as_u64());
+                        if let Some(code_id) = code_id {
+                            let sender = cosmwasm_std::Addr::unchecked(who.clone());
+                            let app = &mut fw.app;
+                            let ok = matches!(crate::util::catch(|| cw_multi_test::Executor::migrate_contract(app, sender, m.clone(), &json!({}), code_id)), Ok(Ok(_)));
+                            count(&mut res, "migrate", ok);
+                        }
+                    }
+                }
+            },
             Cop::NewCreator { who, to } => {
                 let msg = json!({"update_collection_info": {"collection_info": {"description": null, "image": null,
                     "external_link": null, "explicit_content": null, "royalty_info": null, "creator": to}}});
@@ -759,6 +794,17 @@ fn probe_history(fam: Fam, updatable: bool) -> Case {
         ops.push(Cop::Direct { who: "@minter".into(), t: T::None });
         ops.push(trading(a, T::None));
     }
+    if matches!(fam, Fam::Vending(_) | Fam::OpenEdition(_)) {
+        // migrations of the minter inside the history: after an accepted update, after a start move, at the end
+        let mig = |who: &str, stored: Option<(&str, &str)>| Cop::Migrate { who: who.into(), stored: stored.map(|(x, y)| (x.to_string(), y.to_string())) };
+        ops.insert(5, mig(a, Some(("@own", "3.8.9"))));
+        ops.insert(15, mig(STRANGER, Some(("@own", "3.0.0"))));
+        ops.insert(16, mig(a, None));
+        ops.insert(32, mig(a, Some(("@own", "3.9.0"))));
+        ops.push(mig(a, Some(("@own", "2.0.0"))));
+        ops.push(mig(a, Some(("@own", "99.0.0"))));
+        ops.push(trading(a, T::None));
+    }
     if updatable {
         // keep the second collection type cheaper: drop the overflow block
         ops.retain(|o| !matches!(o, Cop::Offset { offset: Off::Abs(MUL_OVERFLOW) } | Cop::Offset { offset: Off::Abs(u64::MAX) }));
@@ -829,6 +875,19 @@ fn gen_case(rng: &mut Rng, fam: Fam, lits: &[u64], thorough: bool) -> Case {
         _ => pick_t(rng),
     };
     let offset = if rng.chance(2, 3) { Off::Abs(WEEK) } else { pick_off(rng) };
+    // migrations of the minter at random places (~3 % of the operations)
+    if matches!(fam, Fam::Vending(_) | Fam::OpenEdition(_)) {
+        let pool = crate::w_sale::migrate_version_pool();
+        let mut i = 0;
+        while i <= ops.len() {
+            if rng.below(1000) < 30 {
+                let (who, stored) = crate::w_sale::gen_migrate_args(rng, &pool);
+                ops.insert(i, Cop::Migrate { who, stored });
+                i += 1;
+            }
+            i += 1;
+        }
+    }
     Case { fam, updatable: rng.chance(1, 3), start_in_secs, offset, requested, ops }
 }
 
